@@ -105,7 +105,9 @@ class PintParser(StringParser):
             raise ValueError(msg)
         try:
             return super().parse(tcls, v)
-        except UndefinedUnitError as e:
+        except (TypeError, ValueError):
+            raise
+        except Exception as e:  # UndefinedUnitError and other failures inside of pint
             raise ValueError(str(e))
 
 
